@@ -4,6 +4,7 @@
 
     schedule <n_thetas> <n_burnin> <thin>        -> <err 0/1> <trace: comma separated event codes | ->
     chainrng <seed> <n_chains> <chain_index>     -> <entropy> <spawn_key list | -> | err:<Class>
+    vigen <n_thetas> <returned>                  -> <err 0/1> <trace of the GENERATED VI branch: 2 reset, 3 set_rng, 4,<n> sample(num_samples=n), 1 add_theta>
     vi <seed> <n_thetas> <returned>              -> <events> <ok | err:<Class>>
          events: R = reset, G<entropy>/<key> = set_rng, S<n> = sample(num_samples=n), A = add_theta
 -/
@@ -36,6 +37,11 @@ def handle : List String → Option String
     match chainRng (fun e k => (e, k)) seed n i with
     | .ok (e, k) => some s!"{e} {showNatList k}"
     | .error err => some (showErr err)
+  | ["vigen", n, r] => do
+    let n ← parseInt? n
+    let r ← parseInt? r
+    let st := Batchie.Gen.SamplingVI.run n r
+    some s!"{showBool st.err} {showIntList st.out}"
   | ["vi", seed, n, r] => do
     let seed ← parseInt? seed
     let n ← parseInt? n
